@@ -249,15 +249,9 @@ theorem pipeline_final_classified (e : Extractor) (R B K W batchSize : Nat) (hW 
     s.nRead = s.nMatched + s.nIgnored + ((allLines datas).filter (outcomeIs e .unmatched)).length := by
   obtain ⟨hperm, htot⟩ := pipeline_final_bytes (clsOf e) R B K W batchSize hW datas timer hr hd
   -- the class filters, restated over `processLine`
-  have hC : ∀ c, ∀ l ∈ allLines datas, decide (clsOf e l = c) = outcomeIs e c l := by
-    intro c l hl
-    obtain ⟨o, ho⟩ := hnp l hl
-    simp only [clsOf, outcomeIs, ho]
-    by_cases h : o.cls = c <;> simp [h]
-  have hfM : (allLines datas).filter (isMatched (clsOf e)) = (allLines datas).filter (outcomeIs e .matched) :=
-    List.filter_congr (hC .matched)
-  have hfI : (allLines datas).filter (isIgnored (clsOf e)) = (allLines datas).filter (outcomeIs e .ignored) :=
-    List.filter_congr (hC .ignored)
+  have hC := fun c => decide_clsOf_eq hnp c
+  have hfM := filter_matched_eq hnp
+  have hfI := filter_ignored_eq hnp
   simp only [seqMatches, seqTotals, Totals.mk.injEq] at hperm htot
   rw [hfM] at hperm
   refine ⟨hperm, ?_, htot.1, by rw [htot.2.1, hfM], by rw [htot.2.2, hfI], ?_⟩
@@ -432,6 +426,41 @@ theorem trace_final (cfg : Cfg) (hW : 1 ≤ cfg.W) (wg : List Nat) (L : Lin PSt)
   have hf := pipeline_final cfg.cls cfg.R cfg.B cfg.K cfg.W hW batches hr hd
   simp only [batchesOf_lines hb] at hf
   exact ⟨ps, hr, hf.1, by simp [seqTotals, hf.2.1, hf.2.2.1, hf.2.2.2.1]⟩
+
+/-- `trace_final` for a case's extractor configuration `e` (the classifier the driver hands the checker is
+    `clsOf e`): an accepted log of a real run ends with the consumer holding exactly the lines whose
+    evaluation IN THEIR OWN CONTEXT is `matched`, and with the counters of that sequential evaluation. -/
+theorem trace_final_classified (e : Extractor) (cfg : Cfg) (hcls : cfg.cls = clsOf e) (hW : 1 ≤ cfg.W)
+    (hnp : NoPanic e (allLines cfg.inputs)) (wg : List Nat) (L : Lin PSt) (evs : List Ev)
+    (batches : List (List (List Line))) (hb : batchesOf cfg evs = some batches)
+    (tr : Array Ev) (h : TraceOrder.accepts (machine cfg wg) L (initSt cfg batches) tr = true) :
+    ∃ ps : PSt, Reach (clsOf e) cfg.R cfg.B cfg.K (init batches cfg.W) ps.lts ∧
+      ps.lts.consumed.Perm ((allLines cfg.inputs).filter (outcomeIs e .matched)) ∧
+      ps.lts.nRead = (allLines cfg.inputs).length ∧
+      ps.lts.nMatched = ((allLines cfg.inputs).filter (outcomeIs e .matched)).length ∧
+      ps.lts.nIgnored = ((allLines cfg.inputs).filter (outcomeIs e .ignored)).length := by
+  obtain ⟨ps, hr, hp, ht⟩ := trace_final cfg hW wg L evs batches hb tr h
+  rw [hcls] at hr hp ht
+  simp only [seqMatches, seqTotals, Totals.mk.injEq] at hp ht
+  rw [filter_matched_eq hnp] at hp ht
+  rw [filter_ignored_eq hnp] at ht
+  exact ⟨ps, hr, hp, ht.1, ht.2.1, ht.2.2⟩
+
+/-- Non-vacuity of `trace_final_classified`: for the configured classifier of `exampleExtractor` the log
+    `exampleLog2` (line 1 logged as ignored, line 2 as unmatched, nothing sent) is accepted, and no
+    evaluation panics. -/
+example : exampleCfg2.cls = clsOf exampleExtractor ∧ NoPanic exampleExtractor (allLines exampleCfg2.inputs) ∧
+    ∃ batches, batchesOf exampleCfg2 exampleLog2 = some batches ∧
+      TraceOrder.accepts (machine exampleCfg2 (workerGs exampleLog2)) (lin (workerGs exampleLog2) exampleLog2)
+        (initSt exampleCfg2 batches) exampleLog2.toArray = true := by
+  refine ⟨rfl, ?_, [[[⟨0, 1, [97, 98]⟩], [⟨0, 2, [120]⟩]]], by decide, by decide +kernel⟩
+  have h : allLines exampleCfg2.inputs = [⟨0, 1, [97, 98]⟩, ⟨0, 2, [120]⟩] := by decide +kernel
+  rw [h]
+  intro l hl
+  simp only [List.mem_cons, List.not_mem_nil, or_false] at hl
+  rcases hl with rfl | rfl
+  · exact ⟨.ignored, ok_of_toOption (by decide +kernel)⟩
+  · exact ⟨.unmatched, ok_of_toOption (by decide +kernel)⟩
 
 /-- The reorderings the checker may use are limited by the log: an event logged AFTER its action (a
     receive, a classified line, …) that precedes in the log an event logged BEFORE its action (a send, a
